@@ -112,11 +112,33 @@ func endedLives() []*LifeScript {
 	return out
 }
 
+// pendingEndLives: the user calls End() while a key exchange is pending at each of its points, then the rest of
+// the exchange arrives; afterwards text goes out by the plaintext policy, or a new exchange is started.
+func pendingEndLives() []*LifeScript {
+	var out []*LifeScript
+	for _, pol := range []int{sim.PolV3, sim.PolV2, sim.PolV3 | sim.PolRequire} {
+		for starter := 0; starter < 2; starter++ {
+			for who := 0; who < 2; who++ {
+				for k := 0; k <= 4; k++ {
+					ops := []SOp{{K: "query", W: starter}}
+					for i := 0; i < k; i++ {
+						ops = append(ops, SOp{K: "dl", W: (starter + i) & 1})
+					}
+					ops = append(ops, SOp{K: "end", W: who}, SOp{K: "flush"}, SOp{K: "send", W: who, L: 8}, SOp{K: "send", W: 1 - who, L: 8}, SOp{K: "flush"},
+						SOp{K: "sess", W: who}, SOp{K: "send", W: who, L: 8}, SOp{K: "flush"})
+					out = append(out, &LifeScript{Cfg: SessCfg{V: 3, SeedA: 46, SeedB: 77, KeyA: 0, KeyB: 3}, PolA: pol, PolB: pol, Ops: ops})
+				}
+			}
+		}
+	}
+	return out
+}
+
 func init() { reg("C18ended", runC18) }
 
 func TestProp_C18_Ended(t *testing.T) {
 	si, sn := sim.Shard()
-	for i, sc := range endedLives() {
+	for i, sc := range append(endedLives(), pendingEndLives()...) {
 		if i%sn == si {
 			sim.Judge(t, "C18ended", sc)
 		}
@@ -129,8 +151,11 @@ func queuedLives() []*LifeScript {
 	var out []*LifeScript
 	for _, pol := range []int{sim.PolV3 | sim.PolRequire, sim.PolV2 | sim.PolRequire, sim.PolV2 | sim.PolV3 | sim.PolRequire | sim.PolErrStart} {
 		for who := 0; who < 2; who++ {
-			for k := 1; k <= 3; k++ {
+			for _, k := range []int{1, 2, 3, 6, 9} {
 				for wait := 0; wait < 5; wait++ {
+					if k > 3 && wait%2 == 1 {
+						continue
+					}
 					for afterEnd := 0; afterEnd < 2; afterEnd++ {
 						var ops []SOp
 						if afterEnd == 1 {
